@@ -170,13 +170,14 @@ def known_tsv(prop):
 
 
 # ------------------------------------------------------------------ sharded native runs
-def run_native(binpath, args, nshards, tag, timeout=None, per_shard_args=None, cwd=None):
+def run_native(binpath, args, nshards, tag, timeout=None, per_shard_args=None, cwd=None, extra_env=None):
     """run nshards copies of a native driver; returns list of report dicts (crashed shards yield a pseudo report)"""
     outdir = os.path.join(BUILD, 'run', tag)
     shutil.rmtree(outdir, ignore_errors=True)
     os.makedirs(outdir)
     os.makedirs(REPLAY, exist_ok=True)
     env = run_env()
+    env.update(extra_env or {})
 
     def one(i):
         out = os.path.join(outdir, 'shard%d.json' % i)
